@@ -213,7 +213,11 @@ class ImplRunner:
                 n = db.update(Q(q), **kw)
             return f"ok {n}"
         if k == "reindex":
-            db.reindex()
+            import contextlib
+            import io
+
+            with contextlib.redirect_stdout(io.StringIO()):  # "Index already valid."
+                db.reindex()
             return "ok unit"
         raise ValueError(f"unknown op {t!r}")
 
